@@ -302,6 +302,60 @@ def rule_inclusive(ctx):
                                     'non-empty intersection' % (
                                         f.qualname, norm_src(n)), file=m.rel,
                                     function=f.qualname, line=n.lineno)
+    # (f) row bounds are kept as strings: ordering them needs int()
+    for m in scope:
+        for f in m.all_funcs:
+            # local dicts whose row entries were converted in place:
+            #   X[k] = int(X[k])
+            converted = set()
+            for n in own_nodes(f):
+                if isinstance(n, ast.Assign) and isinstance(
+                        n.targets[0], ast.Subscript) and isinstance(
+                        n.targets[0].value, ast.Name) and isinstance(
+                        n.value, ast.Call) and isinstance(
+                        n.value.func, ast.Name) and n.value.func.id == 'int' \
+                        and n.value.args and norm_src(n.value.args[0]) == \
+                        norm_src(n.targets[0]):
+                    converted.add(n.targets[0].value.id)
+
+            def raw_row(e, converted=converted):
+                return isinstance(e, ast.Subscript) and isinstance(
+                    e.slice, ast.Constant) and e.slice.value in ('r1', 'r2') \
+                    and not (isinstance(e.value, ast.Name) and
+                             e.value.id in converted)
+
+            for n in own_nodes(f):
+                bad = None
+                if isinstance(n, ast.Compare) and any(isinstance(
+                        o, (ast.Lt, ast.LtE, ast.Gt, ast.GtE)) for o in n.ops):
+                    ops = [n.left] + list(n.comparators)
+                    for i, o in enumerate(n.ops):
+                        if isinstance(o, (ast.Lt, ast.LtE, ast.Gt, ast.GtE)) \
+                                and (raw_row(ops[i]) or raw_row(ops[i + 1])):
+                            bad = n
+                elif isinstance(n, ast.Call) and isinstance(
+                        n.func, ast.Name) and n.func.id in ('min', 'max') and \
+                        any(raw_row(a) for a in n.args):
+                    bad = n
+                if isinstance(n, (ast.Compare, ast.Call)) and (
+                        bad is not None or any(
+                            raw_row(x) for x in ast.walk(n)
+                            if isinstance(n, ast.Compare) and any(isinstance(
+                                o, (ast.Lt, ast.LtE, ast.Gt, ast.GtE))
+                                for o in n.ops))):
+                    rr.instances += 1
+                    if bad is not None:
+                        rr.fail(key_of(f, 'row bounds ordered as text: %s' %
+                                       norm_src(bad)[:60]),
+                                '%s orders row bounds without int(): `%s`. Row '
+                                'bounds (r1/r2) are stored as strings, so "12" '
+                                '< "8" - every other site converts with int() '
+                                'first' % (f.qualname, norm_src(bad)[:90]),
+                                file=m.rel, function=f.qualname, line=n.lineno)
+                    else:
+                        rr.ok('%s: row bounds converted with int() before '
+                              'ordering (`%s`)' % (f.qualname, norm_src(n)[:60]),
+                              '%s:%d' % (m.rel, n.lineno))
     # (e) _split steps by +-1 and uses matching sign
     sp = p.func(RANGES, '_split')
     rr.instances += 1
